@@ -13,6 +13,14 @@ CASES = [
  ("C01", "data/relationships.py", "        if tbl is None:\n            return None\n\n        return ItemList.from_arrow", "        if not tbl:\n            return None\n\n        return ItemList.from_arrow", "break"),
  ("C02", "pipeline/components.py", "    if primary is not None:\n        return primary\n    else:\n        return fallback.get()", "    return primary or fallback.get()", "break"),
  ("C02", "pipeline/components.py", "    if primary is not None:\n        return primary\n    else:\n        return fallback.get()", "    if primary is None:\n        return fallback.get()\n    return primary", "keep"),
+ ("C02", "pipeline/runner.py", "                if val is None and required and isinstance(node, InputNode):", "                if val is None and isinstance(node, InputNode):", "break"),
+ ("C02", "pipeline/runner.py", "            elif required:\n                # the node was skipped earlier because nothing required it\n                raise PipelineError(f\"no data available for required node {node}\")\n            else:\n                return None", "            else:\n                return None", "break"),
+ ("C02", "pipeline/runner.py", "        if val is None and required and types and not is_compatible_data(None, *types):", "        if val is None and types and not is_compatible_data(None, *types):", "break"),
+ ("C02", "pipeline/runner.py", "        if val is None and required and types and not is_compatible_data(None, *types):", "        if required and val is None and types and not is_compatible_data(None, *types):", "keep"),
+ ("C02", "pipeline/runner.py", "                if required and itype:\n                    ireq = not is_compatible_data(None, itype)\n                else:\n                    ireq = False", "                if itype:\n                    ireq = not is_compatible_data(None, itype)\n                else:\n                    ireq = False", "break"),
+ ("C02", "pipeline/runner.py", "                and not is_compatible_data(None, itype)\n                and not required\n", "                and not is_compatible_data(None, itype)\n", "break"),
+ ("C02", "pipeline/runner.py", "        elif status == \"in-progress\":\n            raise PipelineError(f\"pipeline cycle encountered at {node}\")\n", "", "break"),
+ ("C02", "pipeline/runner.py", "        if self.data_type is not None and not is_compatible_data(val, self.data_type):", "        if not self.data_type is None and not is_compatible_data(val, self.data_type):", "keep"),
  ("C03", "basic/topn.py", "        if n is None:\n            n = self.config.n or -1", "        if not n:\n            n = self.config.n or -1", "break"),
  ("C03", "basic/topn.py", "            n = self.config.n or -1", "            n = self.config.n if self.config.n else -1", "keep"),
  ("C03", "basic/topn.py", "            n = self.config.n or -1", "            n = self.config.n if self.config.n is not None else -1", "break"),
